@@ -643,6 +643,7 @@ func ConvertTileXYZsToExtendedSpatialIDs(request []*object.TileXYZ, zBaseExponen
 	for extendedSpatialID := range extendedSpatialIDsMap {
 		extendedSpatialIDs = append(extendedSpatialIDs, extendedSpatialID)
 	}
+	common.VerifReorder(extendedSpatialIDs)
 
 	return extendedSpatialIDs, nil
 }
@@ -865,6 +866,7 @@ func deleteDuplicationList(duplicationList []string) []string {
 	for value := range mList {
 		returnList = append(returnList, value)
 	}
+	common.VerifReorder(returnList)
 	return returnList
 }
 
